@@ -428,6 +428,16 @@ pub fn run(run: &mut Run) -> Finish {
             l.sample(idx, json!({"slice": "L2", "document": String::from_utf8_lossy(&doc_of(&lines, &["a", "b", "c"], &["x", "y", "z"]).0)}));
         }
     });
+    // G: long documents
+    run.par_slice("G: long documents of 15..1000 tokens (one line / one token per line / 7 per line)", 8, long_count(), |idx, l| {
+        let m = long_map(idx & ((1 << 40) - 1));
+        // document order: stable by generated position (the writer needs non-decreasing lines)
+        let doc = rv3_write(&m);
+        if let Some((sig, what)) = check_doc(doc.as_bytes(), Kind::Regular, Some(&m.obs()), "long") {
+            l.violation(idx, Viol::new(format!("C02/{sig}"), what.chars().take(3000).collect::<String>(), json!({"kind": "model", "model": serde_json::to_value(&m).unwrap()})));
+        }
+        l.case(true, h64(&("G", idx)));
+    });
     // X: extreme coordinates
     let nx = x_count();
     run.par_slice("X: documents whose tokens have generated columns / original lines / columns over {0, 7, 2^31-1, 2^31, 2^32-2, 2^32-1} (deltas of +-2^31 and more)", 9, nx, |idx, l| {
